@@ -275,3 +275,451 @@ Proof.
     apply (replay_enum ps [] [] ins); auto.
   - unfold sort_deps. apply isort_Forall. apply (acc_enum T tl ps Hnd Hn ps ins); auto.
 Qed.
+
+(* ------------------------------------------------------------------------------------------------ *)
+(* 2. well-formed tables, nodes and instances                                                        *)
+(* ------------------------------------------------------------------------------------------------ *)
+
+(* [r0]: the record of a freshly built node of the type; [r]: the record of a live node *)
+Definition par_ok (k : pkind) (r0 r : prec) : Prop :=
+  match k with
+  | PNone => False
+  | PValue => (exists d, pr_def r = Some d) /\ (exists v, pr_val r = Some v)
+  | PFile | PImage =>
+      pr_def r = pr_def r0 /\ pr_val r0 = None /\ (pr_val r = None \/ exists b, pr_val r = Some (JBytes b))
+  end.
+
+Definition ty_ok (t : ty) : Prop :=
+  NoDup (map p_name (t_ports t)) /\ Forall pname_ok (t_ports t) /\
+  match t_def t with Some r0 => par_ok (t_kind t) r0 r0 | None => True end.
+Definition table_ok (T : table) : Prop := Forall ty_ok T.
+
+Definition node_ok (T : table) (tl : list (id * nat)) (n : node) : Prop :=
+  exists t, nth_error T (n_ty n) = Some t /\
+    Forall2 port_shape (t_ports t) (n_in n) /\ Forall2 (srcs_ok T tl) (t_ports t) (n_in n) /\
+    match n_par n, t_def t with
+    | Some r, Some r0 => par_ok (t_kind t) r0 r
+    | None, None => True
+    | _, _ => False
+    end.
+
+Definition valid (T : table) (s : inst) : Prop :=
+  Forall (fun e => node_ok T (tys s) (snd e)) (i_nodes s) /\
+  Forall (fun e => is_artifact T (tys s) (snd e) = true) (i_prods s).
+
+Lemma table_ok_nth T k t : table_ok T -> nth_error T k = Some t -> ty_ok t.
+Proof. intros H E. eapply Forall_forall in H; [exact H|]. eapply nth_error_In, E. Qed.
+
+(* ------------------------------------------------------------------------------------------------ *)
+(* 3. save / load round trip                                                                         *)
+(* ------------------------------------------------------------------------------------------------ *)
+
+Lemma skipn_app_exact {A} (a b : list A) : skipn (length a) (a ++ b) = b.
+Proof. induction a; cbn; auto. Qed.
+Lemma firstn_app_exact {A} (a b : list A) : firstn (length a) (a ++ b) = a.
+Proof. induction a; cbn; [reflexivity|]. f_equal. auto. Qed.
+
+Lemma par_roundtrip k r0 r pre post :
+  par_ok k r0 r ->
+  (k = PFile -> (exists b, pr_val r = Some (JBytes b)) -> post = []) ->
+  decode_par k (pre ++ snd (encode_par k (N.of_nat (length pre)) r) ++ post) r0
+             (fst (encode_par k (N.of_nat (length pre)) r)) = r.
+Proof.
+  intros Hok Hpost. destruct r as [nm ds df vl cl]. unfold par_ok in Hok. cbn [pr_def pr_val] in *.
+  destruct k.
+  - destruct Hok.
+  - destruct Hok as [[d Hd] [v Hv]]. subst. reflexivity.
+  - destruct Hok as (Hd & H0 & Hv). unfold encode_par, decode_par. cbn [pr_val pr_name pr_desc pr_cli pr_def].
+    destruct Hv as [Hv|[b Hv]]; subst vl.
+    + cbn. rewrite H0, Hd. reflexivity.
+    + cbn [fst snd s_name s_desc s_def s_cur s_cli decode_field read_view].
+      rewrite (Hpost eq_refl (ex_intro _ b eq_refl)). rewrite app_nil_r.
+      rewrite !Nat2N.id, skipn_app_exact, Hd. reflexivity.
+  - destruct Hok as (Hd & H0 & Hv). unfold encode_par, decode_par. cbn [pr_val pr_name pr_desc pr_cli pr_def].
+    destruct Hv as [Hv|[b Hv]]; subst vl.
+    + cbn. rewrite H0, Hd. reflexivity.
+    + cbn [fst snd s_name s_desc s_def s_cur s_cli decode_field read_view].
+      rewrite !Nat2N.id, skipn_app_exact, firstn_app_exact, Hd. reflexivity.
+Qed.
+
+Lemma encode_node_fst less T off e :
+  s_id (fst (encode_node less T off e)) = fst e /\ s_ty (fst (encode_node less T off e)) = n_ty (snd e).
+Proof.
+  unfold encode_node. destruct (n_par (snd e)); [destruct (encode_par _ _ _)|]; cbn; auto.
+Qed.
+
+Lemma encode_par_payload k off r : snd (encode_par k off r) = snd (encode_par k 0 r).
+Proof. unfold encode_par. destruct k; try reflexivity; destruct (pr_val r) as [[]|]; reflexivity. Qed.
+
+Lemma encode_node_snd less T off e : snd (encode_node less T off e) = payload T (snd e).
+Proof.
+  unfold encode_node, payload. destruct (n_par (snd e)) as [r|]; [|reflexivity].
+  rewrite <- (encode_par_payload _ off r). destruct (encode_par _ _ _); reflexivity.
+Qed.
+
+Lemma encode_nodes_snd less T : forall l off, snd (encode_nodes less T off l) = buffer_of T l.
+Proof.
+  induction l as [|e l IH]; intros off; [reflexivity|].
+  cbn [encode_nodes]. pose proof (encode_node_snd less T off e) as Hp.
+  destruct (encode_node less T off e) as [sn p]. specialize (IH (off + N.of_nat (length p))).
+  destruct (encode_nodes less T (off + N.of_nat (length p)) l) as [sns b]. cbn in *. subst. reflexivity.
+Qed.
+
+Lemma encode_nodes_tys less T : forall l off,
+  map (fun sn => (s_id sn, s_ty sn)) (fst (encode_nodes less T off l)) = map (fun e => (fst e, n_ty (snd e))) l.
+Proof.
+  induction l as [|e l IH]; intros off; [reflexivity|].
+  cbn [encode_nodes]. pose proof (encode_node_fst less T off e) as [Hi Ht].
+  destruct (encode_node less T off e) as [sn p]. specialize (IH (off + N.of_nat (length p))).
+  destruct (encode_nodes less T (off + N.of_nat (length p)) l) as [sns b]. cbn in *. rewrite Hi, Ht, IH. reflexivity.
+Qed.
+
+Lemma node_roundtrip T tl pre post e :
+  table_ok T -> node_ok T tl (snd e) ->
+  (file_payload T (snd e) = true -> post = []) ->
+  decode_node T tl (pre ++ snd (encode_node dep_less T (N.of_nat (length pre)) e) ++ post)
+              (fst (encode_node dep_less T (N.of_nat (length pre)) e)) = Some e.
+Proof.
+  intros HT (t & Ht & Hshape & Hsrc & Hpar) Hpost. destruct e as [i [k ins par]]. cbn [snd fst n_ty n_in n_par] in *.
+  destruct (table_ok_nth T k t HT Ht) as (Hnd & Hpn & _).
+  assert (Hdeps : fold_opt (dstep T tl (t_ports t)) (sort_deps dep_less (enum_deps (t_ports t) ins))
+                           (map (fun _ => []) (t_ports t)) = Some ins) by (apply deps_roundtrip; auto).
+  unfold encode_node. cbn [snd fst n_ty n_in n_par]. unfold ports_of, kind_of. rewrite Ht.
+  unfold file_payload, kind_of in Hpost. cbn [n_ty n_par] in Hpost. rewrite Ht in Hpost.
+  destruct par as [r|]; destruct (t_def t) as [r0|] eqn:Ed; try contradiction.
+  - pose proof (par_roundtrip (t_kind t) r0 r pre post Hpar) as Hr.
+    destruct (encode_par (t_kind t) (N.of_nat (length pre)) r) as [d p] eqn:Ep. cbn [fst snd] in *.
+    unfold decode_node. cbn [s_ty s_deps s_data s_id]. rewrite Ht. cbn [bind]. cbn [fresh n_in].
+    change (fun (ins0 : list (list id)) (d0 : sdep) =>
+              if String.eqb (d_port d0) "Out" then set_input T tl (t_ports t) ins0 (d_name d0) (d_src d0) else None)
+      with (dstep T tl (t_ports t)).
+    rewrite Hdeps. cbn [bind]. rewrite Ed. cbn [bind]. rewrite Hr; [reflexivity|].
+    intros Hk [b Hb]. apply Hpost. rewrite Hk, Hb. reflexivity.
+  - cbn [fst snd app]. unfold decode_node. cbn [s_ty s_deps s_data s_id]. rewrite Ht. cbn [bind]. cbn [fresh n_in].
+    change (fun (ins0 : list (list id)) (d0 : sdep) =>
+              if String.eqb (d_port d0) "Out" then set_input T tl (t_ports t) ins0 (d_name d0) (d_src d0) else None)
+      with (dstep T tl (t_ports t)).
+    rewrite Hdeps. cbn [bind]. rewrite Ed. reflexivity.
+Qed.
+
+Lemma nodes_roundtrip T tl : table_ok T -> forall l pre,
+  Forall (fun e => node_ok T tl (snd e)) l -> no_overread T l ->
+  map_opt (decode_node T tl (pre ++ snd (encode_nodes dep_less T (N.of_nat (length pre)) l)))
+          (fst (encode_nodes dep_less T (N.of_nat (length pre)) l)) = Some l.
+Proof.
+  intros HT. induction l as [|e l IH]; intros pre Hok Hno; [reflexivity|].
+  inversion Hok as [|? ? He Hl]; subst. destruct Hno as [Hfile Hno].
+  cbn [encode_nodes].
+  pose proof (node_roundtrip T tl pre (buffer_of T l) e HT He Hfile) as Hnode.
+  destruct (encode_node dep_less T (N.of_nat (length pre)) e) as [sn p] eqn:E1. cbn [fst snd] in Hnode.
+  replace (N.of_nat (length pre) + N.of_nat (length p)) with (N.of_nat (length (pre ++ p)))
+    by (rewrite app_length; lia).
+  specialize (IH (pre ++ p) Hl Hno).
+  pose proof (encode_nodes_snd dep_less T l (N.of_nat (length (pre ++ p)))) as Hb.
+  destruct (encode_nodes dep_less T (N.of_nat (length (pre ++ p))) l) as [sns b] eqn:E2. cbn [fst snd] in *.
+  subst b. cbn [map_opt]. rewrite Hnode. rewrite <- app_assoc in IH. rewrite IH. reflexivity.
+Qed.
+
+Theorem reload_valid T s :
+  table_ok T -> valid T s -> no_overread T (i_nodes s) -> decode T (encode T s) = Some s.
+Proof.
+  intros HT [Hn Hp] Hno. unfold encode, encode_with.
+  pose proof (nodes_roundtrip T (tys s) HT (i_nodes s) [] Hn Hno) as Hr. cbn [length app] in Hr.
+  change (N.of_nat 0) with 0 in Hr.
+  pose proof (encode_nodes_tys dep_less T (i_nodes s) 0) as Ht.
+  destruct (encode_nodes dep_less T 0 (i_nodes s)) as [sns buf]. cbn [fst snd] in *.
+  unfold decode. cbn [s_nodes s_buf s_prods s_meta]. rewrite Ht. fold (tys s). rewrite Hr. cbn [bind].
+  assert (Hf : forallb (fun '(_, i, p) => String.eqb p "Out" && is_artifact T (tys s) i)
+                       (map (fun e : string * id => (fst e, snd e, "Out"%string)) (i_prods s)) = true).
+  { apply forallb_forall. intros x Hx. apply in_map_iff in Hx. destruct Hx as (e & <- & He).
+    eapply Forall_forall in Hp; [|exact He]. cbn. exact Hp. }
+  rewrite Hf. rewrite map_map.
+  assert (Hm : map (fun x : string * id => (fst x, snd x)) (i_prods s) = i_prods s).
+  { clear. induction (i_prods s) as [|[a b] l IH]; cbn; [reflexivity|]. rewrite IH. reflexivity. }
+  cbn. rewrite Hm. destruct s; reflexivity.
+Qed.
+
+(* ------------------------------------------------------------------------------------------------ *)
+(* 4. every editing operation preserves the invariant                                                *)
+(* ------------------------------------------------------------------------------------------------ *)
+
+Lemma insert_In_iff {A} (less : A -> A -> bool) x y l : In y (insert less x l) <-> y = x \/ In y l.
+Proof.
+  split; [apply insert_In|]. induction l as [|z l IH]; cbn.
+  - intros [H|[]]; auto.
+  - destruct (less x z); cbn; intros [H|[H|H]]; auto.
+Qed.
+
+Lemma existsb_incl {A} (f : A -> bool) l l' :
+  (forall x, In x l -> In x l') -> existsb f l = true -> existsb f l' = true.
+Proof.
+  intros Hi H. apply existsb_exists in H. destruct H as (x & Hx & Hf). apply existsb_exists. exists x. auto.
+Qed.
+
+Lemma Forall2_impl_in {A B} (P Q : A -> B -> Prop) : forall la lb,
+  Forall2 P la lb -> (forall a b, In b lb -> P a b -> Q a b) -> Forall2 Q la lb.
+Proof.
+  induction 1; intros H'; constructor.
+  - apply H'; [left; reflexivity | assumption].
+  - apply IHForall2. intros a b Hb. apply H'. right. exact Hb.
+Qed.
+
+(* node_ok only looks at the sources a node actually uses *)
+Lemma node_ok_tl T tl tl' n :
+  node_ok T tl n ->
+  (forall src vt l, In l (n_in n) -> In src l -> has_src T tl src vt = true -> has_src T tl' src vt = true) ->
+  node_ok T tl' n.
+Proof.
+  intros (t & Ht & Hs & Hsrc & Hp) Hmono. exists t. repeat split; auto.
+  eapply Forall2_impl_in; [exact Hsrc|]. intros p l Hl Hok. unfold srcs_ok in *.
+  apply Forall_forall. intros src Hin. eapply Hmono; eauto. eapply Forall_forall in Hok; eauto.
+Qed.
+
+Lemma insert_Forall' {A} (less : A -> A -> bool) (P : A -> Prop) x l : P x -> Forall P l -> Forall P (insert less x l).
+Proof. apply insert_Forall. Qed.
+
+Lemma put_Forall {V} (P : string * V -> Prop) k v l : P (k, v) -> Forall P l -> Forall P (put k v l).
+Proof.
+  intros Hk Hl. induction Hl as [|[k' v'] l Hx Hl IH]; cbn; [repeat constructor; auto|].
+  destruct (String.eqb k k'); [constructor; auto|]. destruct (str_ltb k k'); repeat constructor; auto.
+Qed.
+
+Lemma filter_Forall {A} (P : A -> Prop) f l : Forall P l -> Forall P (filter f l).
+Proof. induction 1; cbn; [constructor|]. destruct (f x); auto. Qed.
+
+Lemma tys_map_node i f l : (forall n, n_ty (f n) = n_ty n) ->
+  map (fun e : id * node => (fst e, n_ty (snd e))) (map_node i f l) = map (fun e => (fst e, n_ty (snd e))) l.
+Proof.
+  intros Hf. unfold map_node. rewrite map_map. apply map_ext. intros [j n]. cbn.
+  destruct (String.eqb i j); cbn; [rewrite Hf|]; reflexivity.
+Qed.
+
+Lemma map_node_Forall (P : id * node -> Prop) i f l :
+  Forall P l -> (forall e, P e -> P (fst e, f (snd e))) -> Forall P (map_node i f l).
+Proof.
+  intros Hl Hf. unfold map_node. apply Forall_forall. intros x Hx. apply in_map_iff in Hx.
+  destruct Hx as (e & <- & He). eapply Forall_forall in Hl; [|exact He].
+  destruct (String.eqb i (fst e)); [apply Hf, Hl | exact Hl].
+Qed.
+
+Lemma zip_upd_Forall2 (P : port -> list id -> Prop) f g : forall ps ins,
+  Forall2 P ps ins -> (forall q l, In q ps -> P q l -> String.eqb (p_name q) f = true -> P q (g l)) ->
+  Forall2 P ps (zip_upd ps ins f g).
+Proof.
+  induction 1 as [|q l ps ins Hq Hr IH]; intros Hg; cbn; constructor.
+  - destruct (String.eqb (p_name q) f) eqn:E; [apply Hg; auto; left; reflexivity | exact Hq].
+  - apply IH. intros q' l' Hin. apply Hg. right. exact Hin.
+Qed.
+
+Lemma find_port_name ps f p : find_port ps f = Some p -> p_name p = f /\ In p ps.
+Proof.
+  unfold find_port. intros H. apply find_some in H. destruct H as [Hin He]. apply String.eqb_eq in He. auto.
+Qed.
+
+Lemma set_input_ok T tl ps ins name src ins' :
+  NoDup (map p_name ps) ->
+  Forall2 port_shape ps ins -> Forall2 (srcs_ok T tl) ps ins ->
+  set_input T tl ps ins name src = Some ins' ->
+  Forall2 port_shape ps ins' /\ Forall2 (srcs_ok T tl) ps ins'.
+Proof.
+  intros Hnd Hs Hsrc H. unfold set_input in H. destruct (accepts T tl ps name src) eqn:Ea; [|discriminate].
+  injection H as <-. unfold accepts in Ea. destruct (find_port ps (field_of name)) as [p|] eqn:Ef; [|discriminate].
+  apply andb_prop in Ea. destruct Ea as [Harr Hsrc1]. apply Bool.eqb_prop in Harr.
+  destruct (find_port_name _ _ _ Ef) as [Hname Hin].
+  assert (Hq : forall q, In q ps -> String.eqb (p_name q) (field_of name) = true -> q = p).
+  { intros q Hq He. apply String.eqb_eq in He. rewrite <- He in Ef. rewrite (find_port_In ps q Hnd Hq) in Ef. congruence. }
+  split; apply zip_upd_Forall2; auto.
+  - intros q l Hqin _ He Harrq. rewrite (Hq q Hqin He), Harr in Harrq. rewrite Harrq. cbn. lia.
+  - intros q l Hqin Hl He. rewrite (Hq q Hqin He). unfold srcs_ok in *. rewrite (Hq q Hqin He) in Hl.
+    destruct (dotted name); [apply Forall_app; split; auto|]; repeat constructor; auto.
+Qed.
+
+Lemma remove_nth_incl {A} (P : A -> Prop) : forall l k, Forall P l -> Forall P (remove_nth k l).
+Proof.
+  induction l as [|x l IH]; intros k H; destruct k; cbn; auto; inversion H; subst; auto.
+Qed.
+Lemma remove_nth_length {A} : forall (l : list A) k, (length (remove_nth k l) <= length l)%nat.
+Proof. induction l as [|x l IH]; intros k; destruct k; cbn; auto. specialize (IH k). lia. Qed.
+
+Lemma clear_input_ok T tl ps ins name ins' :
+  Forall2 port_shape ps ins -> Forall2 (srcs_ok T tl) ps ins ->
+  clear_input ps ins name = Some ins' ->
+  Forall2 port_shape ps ins' /\ Forall2 (srcs_ok T tl) ps ins'.
+Proof.
+  intros Hs Hsrc H. unfold clear_input in H.
+  destruct (lsplit name) as [[f rest]|].
+  - destruct (atoi rest) as [idx|]; [|discriminate]. cbn [bind] in H.
+    destruct (find_port ps f) as [p|]; [|discriminate]. cbn [bind] in H.
+    destruct (port_val ps ins f) as [l|]; [|discriminate]. cbn [bind] in H.
+    destruct (p_array p && (idx <? N.of_nat (length l))); [|discriminate]. injection H as <-.
+    split; apply zip_upd_Forall2; auto.
+    + intros q l' _ Hl _ Ha. specialize (Hl Ha). pose proof (remove_nth_length l' (N.to_nat idx)). lia.
+    + intros q l' _ Hl _. apply remove_nth_incl, Hl.
+  - destruct (find_port ps name) as [p|]; [|discriminate]. cbn [bind] in H. injection H as <-.
+    split; apply zip_upd_Forall2; auto.
+    + intros q l' _ _ _ _. cbn. lia.
+    + intros q l' _ _ _. constructor.
+Qed.
+
+Lemma node_ok_in T tl n ins' :
+  node_ok T tl n ->
+  (forall t, nth_error T (n_ty n) = Some t ->
+     Forall2 port_shape (t_ports t) ins' /\ Forall2 (srcs_ok T tl) (t_ports t) ins') ->
+  node_ok T tl (mknode (n_ty n) ins' (n_par n)).
+Proof.
+  intros (t & Ht & _ & _ & Hp) H. destruct (H t Ht) as [A B]. exists t. cbn. auto.
+Qed.
+
+Lemma node_ok_par T tl n (f : prec -> prec) :
+  node_ok T tl n ->
+  (forall k r0 r, par_ok k r0 r -> kind_of T (n_ty n) = k -> par_ok k r0 (f r)) ->
+  node_ok T tl (set_par n f).
+Proof.
+  intros (t & Ht & Hs & Hsrc & Hp) Hf. exists t. unfold set_par. cbn. repeat split; auto.
+  destruct (n_par n) as [r|]; destruct (t_def t) as [r0|]; auto.
+  apply Hf; auto. unfold kind_of. rewrite Ht. reflexivity.
+Qed.
+
+Lemma has_src_del T tl i src vt : src <> i ->
+  has_src T tl src vt = true -> has_src T (filter (fun e => negb (String.eqb i (fst e))) tl) src vt = true.
+Proof.
+  intros Hne H. unfold has_src in *. apply existsb_exists in H. destruct H as (e & He & Hf).
+  apply existsb_exists. exists e. split; [|exact Hf]. apply filter_In. split; [exact He|].
+  apply andb_prop in Hf. destruct Hf as [Hid _]. apply String.eqb_eq in Hid.
+  apply negb_true_iff. apply String.eqb_neq. congruence.
+Qed.
+
+Lemma is_artifact_del T tl i j : j <> i ->
+  is_artifact T tl j = true -> is_artifact T (filter (fun e => negb (String.eqb i (fst e))) tl) j = true.
+Proof.
+  intros Hne H. unfold is_artifact in *. apply existsb_exists in H. destruct H as (e & He & Hf).
+  apply existsb_exists. exists e. split; [|exact Hf]. apply filter_In. split; [exact He|].
+  apply andb_prop in Hf. destruct Hf as [Hid _]. apply String.eqb_eq in Hid.
+  apply negb_true_iff. apply String.eqb_neq. congruence.
+Qed.
+
+Lemma tys_del i (l : list (id * node)) :
+  map (fun e : id * node => (fst e, n_ty (snd e))) (del i l)
+  = filter (fun e => negb (String.eqb i (fst e))) (map (fun e => (fst e, n_ty (snd e))) l).
+Proof.
+  unfold del. induction l as [|[j n] l IH]; cbn; [reflexivity|].
+  destruct (negb (String.eqb i j)); cbn; rewrite IH; reflexivity.
+Qed.
+
+Lemma mem_In x l : mem x l = true <-> In x l.
+Proof.
+  unfold mem. rewrite existsb_exists. split.
+  - intros (y & Hy & He). apply String.eqb_eq in He. subst. exact Hy.
+  - intros H. exists x. split; [exact H | apply String.eqb_refl].
+Qed.
+
+Lemma not_depended s i e l src :
+  depended_on s i = false -> In e (i_nodes s) -> In l (n_in (snd e)) -> In src l -> src <> i.
+Proof.
+  intros Hd He Hl Hs Heq. subst src. unfold depended_on in Hd.
+  assert (X : existsb (fun e0 : id * node => existsb (mem i) (n_in (snd e0))) (i_nodes s) = true).
+  { apply existsb_exists. exists e. split; [exact He|]. apply existsb_exists. exists l. split; [exact Hl|].
+    apply mem_In, Hs. }
+  congruence.
+Qed.
+
+Lemma valid_empty T : valid T empty.
+Proof. split; constructor. Qed.
+
+Theorem step_valid T s o : table_ok T -> valid T s -> valid T (fst (step T s o)).
+Proof.
+  intros HT [Hn Hp]. destruct o; cbn [step].
+  - (* create *)
+    destruct (nth_error T k) as [t|] eqn:Et; [|split; assumption]. cbn [fst].
+    set (e := (alloc (ids s), fresh t k)).
+    assert (Hincl : forall x, In x (tys s) -> In x (tys (set_nodes s (insert_node e (i_nodes s))))).
+    { intros x Hx. unfold tys in Hx. unfold tys, set_nodes, insert_node. cbn [i_nodes]. apply in_map_iff in Hx.
+      destruct Hx as (y & <- & Hy). apply (in_map (fun e0 : id * node => (fst e0, n_ty (snd e0)))).
+      apply insert_In_iff. right. exact Hy. }
+    split.
+    + unfold set_nodes at 2. cbn [i_nodes]. unfold insert_node. apply insert_Forall.
+      * destruct (table_ok_nth T k t HT Et) as (_ & _ & Hd).
+        exists t. cbn. repeat split; auto.
+        -- clear. induction (t_ports t); cbn; constructor; auto. intros _. cbn. lia.
+        -- clear. induction (t_ports t); cbn; constructor; auto. constructor.
+        -- destruct (t_def t); auto.
+      * eapply Forall_impl; [|exact Hn]. intros x Hx. eapply node_ok_tl; [exact Hx|].
+        intros src vt l _ _ H. unfold has_src in *. eapply existsb_incl; [|exact H]. exact Hincl.
+    + unfold set_nodes at 2. cbn [i_prods]. eapply Forall_impl; [|exact Hp]. intros x Hx.
+      unfold is_artifact in *. eapply existsb_incl; [|exact Hx]. exact Hincl.
+  - (* delete *)
+    destruct (depended_on s i) eqn:Ed; [split; assumption|]. cbn [fst]. unfold valid, tys. cbn [i_nodes i_prods].
+    rewrite tys_del. fold (tys s). split.
+    + unfold del. apply Forall_forall. intros e He. apply filter_In in He. destruct He as [He _].
+      eapply Forall_forall in Hn; [|exact He]. eapply node_ok_tl; [exact Hn|].
+      intros src vt l Hl Hs. apply has_src_del. eapply not_depended; eauto.
+    + apply Forall_forall. intros e He. apply filter_In in He. destruct He as [He Hne].
+      eapply Forall_forall in Hp; [|exact He]. apply is_artifact_del; [|exact Hp].
+      apply negb_true_iff in Hne. apply String.eqb_neq in Hne. intros X. apply Hne. symmetry. exact X.
+  - (* connect *)
+    destruct (find_node s dst) as [nd|]; [|split; assumption].
+    destruct (find_node s src); [|split; assumption].
+    destruct (set_input T (tys s) (ports_of T (n_ty nd)) (n_in nd) port src); [|split; assumption].
+    cbn [fst]. unfold valid, tys, set_nodes. cbn [i_nodes i_prods].
+    rewrite tys_map_node by (intros n0; destruct (set_input _ _ _ _ _ _); reflexivity). fold (tys s).
+    split; [|exact Hp]. apply map_node_Forall; [exact Hn|]. intros e He. cbn [snd].
+    destruct (set_input T (tys s) (ports_of T (n_ty (snd e))) (n_in (snd e)) port src) as [ins'|] eqn:Es; [|exact He].
+    apply node_ok_in; [exact He|]. intros t Ht. unfold ports_of in Es. rewrite Ht in Es.
+    destruct He as (t' & Ht' & Hs & Hsrc & _). rewrite Ht in Ht'. injection Ht' as <-.
+    destruct (table_ok_nth T _ t HT Ht) as (Hnd & _ & _). eapply set_input_ok; eauto.
+  - (* disconnect *)
+    destruct (find_node s dst) as [nd|]; [|split; assumption].
+    destruct (clear_input (ports_of T (n_ty nd)) (n_in nd) port); [|split; assumption].
+    cbn [fst]. unfold valid, tys, set_nodes. cbn [i_nodes i_prods].
+    rewrite tys_map_node by (intros n0; destruct (clear_input _ _ _); reflexivity). fold (tys s).
+    split; [|exact Hp]. apply map_node_Forall; [exact Hn|]. intros e He. cbn [snd].
+    destruct (clear_input (ports_of T (n_ty (snd e))) (n_in (snd e)) port) as [ins'|] eqn:Es; [|exact He].
+    apply node_ok_in; [exact He|]. intros t Ht. unfold ports_of in Es. rewrite Ht in Es.
+    destruct He as (t' & Ht' & Hs & Hsrc & _). rewrite Ht in Ht'. injection Ht' as <-.
+    eapply clear_input_ok; eauto.
+  - (* update *)
+    destruct (find_node s i) as [n|]; [|split; assumption].
+    destruct (n_par n); [|split; assumption].
+    destruct (value_fits (kind_of T (n_ty n)) v); [|split; assumption].
+    cbn [fst]. unfold valid, tys, set_nodes. cbn [i_nodes i_prods].
+    rewrite tys_map_node by (intros n0; destruct (value_fits _ _); reflexivity). fold (tys s).
+    split; [|exact Hp]. apply map_node_Forall; [exact Hn|]. intros e He. cbn [snd].
+    destruct (value_fits (kind_of T (n_ty (snd e))) v) eqn:Ev; [|exact He].
+    apply node_ok_par; [exact He|]. intros k r0 r Hok Hk. rewrite Hk in Ev.
+    destruct k; cbn in *; auto.
+    + destruct Hok as [Hd _]. split; [exact Hd | eexists; reflexivity].
+    + destruct v; try discriminate. destruct Hok as (A & B & _). repeat split; auto. right. eexists. reflexivity.
+    + destruct v; try discriminate. destruct Hok as (A & B & _). repeat split; auto. right. eexists. reflexivity.
+  - (* bad update *) split; assumption.
+  - (* name *)
+    destruct (is_param s i); [|split; assumption].
+    cbn [fst]. unfold valid, tys, set_nodes. cbn [i_nodes i_prods].
+    rewrite tys_map_node by reflexivity. fold (tys s).
+    split; [|exact Hp]. apply map_node_Forall; [exact Hn|]. intros e He. cbn [snd].
+    apply node_ok_par; [exact He|]. intros k r0 r Hok _. destruct k; exact Hok.
+  - (* description *)
+    destruct (is_param s i); [|split; assumption].
+    cbn [fst]. unfold valid, tys, set_nodes. cbn [i_nodes i_prods].
+    rewrite tys_map_node by reflexivity. fold (tys s).
+    split; [|exact Hp]. apply map_node_Forall; [exact Hn|]. intros e He. cbn [snd].
+    apply node_ok_par; [exact He|]. intros k r0 r Hok _. destruct k; exact Hok.
+  - (* producer *)
+    destruct (is_artifact T (tys s) i) eqn:Ea; [|split; assumption].
+    cbn [fst]. split; [exact Hn|]. cbn [i_prods]. unfold tys. cbn [i_nodes]. fold (tys s).
+    apply put_Forall; [exact Ea|]. apply filter_Forall, Hp.
+  - (* set metadata *)
+    destruct (meta_set (split_dots path) v (i_meta s)); split; assumption.
+  - (* delete metadata *)
+    destruct (meta_del (split_dots path) (i_meta s)); split; assumption.
+Qed.
+
+Lemma run_from_valid T : table_ok T -> forall h s, valid T s -> valid T (fst (run_from T s h)).
+Proof.
+  intros HT. induction h as [|o h IH]; intros s Hs; [exact Hs|].
+  cbn [run_from]. pose proof (step_valid T s o HT Hs) as H1.
+  destruct (step T s o) as [s1 ok]. cbn [fst] in H1. specialize (IH s1 H1).
+  destruct (run_from T s1 h) as [s2 oks]. exact IH.
+Qed.
+
+Theorem run_valid T h : table_ok T -> valid T (run T h).
+Proof. intros HT. apply run_from_valid; [exact HT | apply valid_empty]. Qed.
